@@ -81,6 +81,10 @@ template < class T > struct Ref {
   T astar[2];   // sound speed next to the contact (fan sides)
   T head[2], tail[2], front[2];
   int iterations;
+  Ref() : kind(K_VAC_BOTH), ystar(0), pstar(0), ustar(0), iterations(0) {
+    for (int k = 0; k < 2; ++k)
+      W[k] = sshock[k] = rhostar[k] = astar[k] = 0, shock[k] = false;
+  }
 
   /// velocity change across the wave of side k at pressure exp(y)
   T delta(int k, T y) const {
@@ -109,7 +113,10 @@ template < class T > struct Ref {
   /// same, evaluated at a pressure given directly
   T G_of_p(T pp) const { return G(Log(pp)); }
 
-  void setup(T gamma, T rhoL, T uL, T pL, T rhoR, T uR, T pR) {
+  /// y_guess/y_halfwidth: optional tight bracket of ln p* (e.g. from a
+  /// solution in a shorter arithmetic); it is verified and widened if needed
+  void setup(T gamma, T rhoL, T uL, T pL, T rhoR, T uR, T pR, bool have_guess = false,
+             T y_guess = 0, T y_halfwidth = 0) {
     g = gamma;
     alpha = (g - 1) / (2 * g);
     rho[0] = rhoL;
@@ -155,11 +162,17 @@ template < class T > struct Ref {
     T hi = lnp[0] > lnp[1] ? lnp[0] : lnp[1];
     T lo = lnp[0] < lnp[1] ? lnp[0] : lnp[1];
     T step = 1;
+    if (have_guess) {
+      hi = y_guess + y_halfwidth;
+      lo = y_guess - y_halfwidth;
+      step = y_halfwidth;
+    }
+    const T step0 = step;
     while (G(hi) < 0) {
       hi += step;
       step *= 2;
     }
-    step = 1;
+    step = step0;
     while (G(lo) > 0) {
       lo -= step;
       step *= 2;
@@ -195,6 +208,32 @@ template < class T > struct Ref {
         tail[k] = ustar + sgn * astar[k];
       }
     }
+  }
+
+  /// copy a solution computed in another arithmetic
+  template < class U > void adopt(const Ref< U > &o) {
+    g = (T)o.g;
+    alpha = (T)o.alpha;
+    for (int k = 0; k < 2; ++k) {
+      rho[k] = (T)o.rho[k];
+      u[k] = (T)o.u[k];
+      p[k] = (T)o.p[k];
+      a[k] = (T)o.a[k];
+      lnp[k] = (T)o.lnp[k];
+      shock[k] = o.shock[k];
+      W[k] = (T)o.W[k];
+      sshock[k] = (T)o.sshock[k];
+      rhostar[k] = (T)o.rhostar[k];
+      astar[k] = (T)o.astar[k];
+      head[k] = (T)o.head[k];
+      tail[k] = (T)o.tail[k];
+      front[k] = (T)o.front[k];
+    }
+    kind = o.kind;
+    ystar = (T)o.ystar;
+    pstar = (T)o.pstar;
+    ustar = (T)o.ustar;
+    iterations = o.iterations;
   }
 
   /// all waves from left to right
